@@ -23,7 +23,8 @@ FULL statements (kept visible; FALSE of the pinned code, see `*_full_false` belo
         Agree (HidR dr rv) σ₁ σ₁'
 
 What is proved (`…_partial`): the same statements under the additional decidable hypothesis `inS1 body`
-(= `finOKB`): every `finally` block is free of break/continue/return (documented exemption of C01), and a
+(= `finOKB`): no break/continue/return leaves a `finally` block (`escFreeB`: no `return` anywhere inside it,
+`break`/`continue` only inside loops of the block itself — the documented exemption of C01, PEP 765), and a
 `finally` block that contains a `raise` belongs to a `try` whose body and handlers contain no
 break/continue/return.  What is missing is exactly the negation of the second clause: there the pinned
 passes ARE wrong (a raise in `finally` replaces a pending jump whose flag has already been set; if the
@@ -302,6 +303,25 @@ def exCont : Block :=
     [.tryS [.ifS dcall [.cont] [], .expr (tr 1)] [] [.expr (tr 2)],
      .ifS dcall [.cont] [],
      .expr (tr 3)]]
+
+/-- a loop with its own `break` inside a `finally` block is inside S1 (no jump leaves the block):
+```
+while d():
+    try:
+        if d(): continue
+    finally:
+        while d():
+            if d(): break
+            tr(1)
+    tr(2)
+``` -/
+def exFin : Block :=
+  [.whileS dcall
+    [.tryS [.ifS dcall [.cont] []] [] [.whileS dcall [.ifS dcall [.brk] [], .expr (tr 1)]],
+     .expr (tr 2)]]
+
+example : inS1 exFin ∧ GenNamesFresh (stdGen 'c') exFin ∧ topContB exFin = false :=
+  ⟨by decide, userNames_fresh 'c' exFin (by decide), by decide⟩
 
 example : Injective (stdGen 'c') ∧ GenNamesFresh (stdGen 'c') exCont ∧ inS1 exCont ∧ topContB exCont = false :=
   ⟨stdGen_injective 'c', userNames_fresh 'c' exCont (by decide), by decide, by decide⟩
